@@ -28,19 +28,19 @@ CHECKS = {
          "member timeframes are multiples of the Hexital timeframe; one known finding (lifespan + member timeframe) characterised differentially", "6 C08"),
  "C09": ("E1", "bounded exhaustive enumeration of degenerate stream families; invariant oracle on every stored value",
          "No enumerated stream (flat, zero-volume, monotone, long identical runs, fill candles) makes append/calculate raise, store a non-finite value, or leave a gap after the first value of an output field.",
-         "prices on the stated grids; periods 2-6", "6 C09"),
+         "prices on the stated grids; periods 2-6; hosts base/T2/T2+fill/Heikin-Ashi; readers fed by another indicator inside a Hexital; one known finding (reader fed by a series with interior gaps raises TypeError) classified per case", "6 C09"),
  "C10": ("E1", "bounded exhaustive enumeration of streams; invariant oracle (ranges, band order, field identities, rounding) on every reading",
          "Every reading of every final state in the enumerated space satisfies the structural relations of the statement within explicit rounding slack.",
          "slack 2 units of the coarser of round_value and the 4-decimal helper rounding; incremental window updates get one unit per candle", "6 C10"),
  "C11": ("E1", "bounded exhaustive enumeration of streams x preloads x append compositions x hosts; reference Heikin-Ashi recurrence over the reference collapse",
          "For every enumerated stream and schedule (including starts from 0 or 1 candle) the candles indicators see are the reference HA candles, raw values recoverable, tags present, EMA computed on converted closes.",
-         "1e-9 relative tolerance on HA arithmetic", "6 C11"),
+         "1e-9 relative tolerance on HA arithmetic; alphabet includes a relative letter (flat zero-volume candle at the ohlc/4 of its predecessor)", "6 C11"),
  "C12": ("E1", "bounded exhaustive enumeration of gap words x hosts x append compositions with fill on; reference fill model",
          "Every enumerated gap pattern fills to a contiguous series of flat zero-volume candles, real buckets unchanged, identical for every schedule.",
          "TZ=UTC", "6 C12"),
  "C18": ("E4", "exhaustive enumeration of zones x timeframes x DST base dates x gap words, one child process per zone; differential oracle against the UTC child and the reference",
          "For every listed zone (half-hour, 45-minute, DST) and every enumerated stream the collapsed candles are identical to the UTC run.",
-         "tzdata of the image; listed zones and dates only", "6 C18"),
+         "tzdata of the image; listed zones and dates only; a zone child stops after 9 measured horizon hits (run then marked non-exhaustive)", "6 C18"),
  "C13": ("E2", "explicit-state BFS over operation sequences on a Hexital holding pairs/triples; differential oracle against a Hexital holding the other indicator alone",
          "In every reachable state of every enumerated pair/triple (all ordered pairs of the pool, name-relationship triples, members on shared/nested/differently spelled/fill-flagged timeframes over a gappy stream) and operation word aimed at either member, every other indicator has exactly the readings it has alone.",
          "shipped naming; user supplied fullname_override collisions are outside the alphabet", "6 C13"),
@@ -49,7 +49,7 @@ CHECKS = {
          "indices restricted as the property says", "6 C14"),
  "C15": ("E1", "bounded exhaustive enumeration of streams x lifespans x schedules; window invariant + differential against an untrimmed twin on eligible cases",
          "After every append exactly the lifespan window is retained; readings equal the untrimmed twin whenever look-back was retained.",
-         "look-back table rounded up", "6 C15"),
+         "look-back = max(measured warm-up, integer parameters, 1 predecessor), no slack", "6 C15"),
  "C16": ("E1", "exhaustive enumeration of reading lists x indices x lengths for every analysis function; truncation / negative-index differential oracles",
          "f(list, i) == f(list[:i+1]) == f(list, i-n) for every function, index and argument in the enumerated space; never raises on missing readings; wrapped column equal live and batch.",
          "lists up to the stated length", "6 C16"),
@@ -58,7 +58,7 @@ CHECKS = {
          "one admitted window convention for highestbar/lowestbar", "6 C17"),
  "C19": ("E2", "explicit-state exploration of accessor/append interleavings with full deep snapshots before/after each accessor; encoding differential",
          "In every reachable state (incl. lifespan-trimmed ones) applying any accessor of the menu leaves the object observationally equal - all candles of all timeframes and the results of all accessors - immediately and after 1 and 2 further appends; all 9 encodings of a candle give the same state; caller containers unchanged.",
-         "deep snapshot of instance dicts", "6 C19"),
+         "deep snapshot of instance dicts; encoding matrix on the integer grid and on a six-decimal / fractional-volume scale; delivery search over append / remove_indicator / add-back", "6 C19"),
  "C20": ("E1", "exhaustive enumeration of states x names x indices; agreement oracle between all access paths",
          "All access paths agree in every enumerated state, has_reading iff latest is not None, reading_count = trailing run.",
          "", "6 C20"),
